@@ -52,6 +52,13 @@ _c("C18", "fault_enumeration", "enumeration of on-disk fault states (every trunc
    "After every step the leaf certificate presented in a real handshake (signature verified), cert info and counters must match the last pair whose reload succeeded; old connections keep working.",
    "prefixes ending inside the final PEM line may load or not; watcher/debounce not driven")
 
+_c("C07", "exploration", "property-based testing (proptest): round trip + differential against a reference SOCKS address codec (Lab-M), resolver histories against a fake DNS, end-to-end dial histories on loopback",
+   "Destinations of every address type and length through the real client encoder and the real server decoder (also each against the reference), resolver call histories with cache ageing, and request histories by name through the SOCKS5 front-end to listeners on distinct loopback addresses/ports.",
+   "fake DNS installed through the public set_custom_dns_servers; H7 ages the cache; kernel loopback for the dial family")
+_c("C16", "exploration", "property-based testing (proptest) of the real SOCKS5 listener on loopback against a reference model of RFC 1928; generated greetings/requests and TCP segmentations",
+   "Generated greetings, requests (all commands, address types, versions) and segmentations against the real front-end -> client -> TLS -> server -> loopback targets, with a neighbour connection and a fresh connection afterwards. Sampling; negatives are evaluated after the front-end replied or closed.",
+   "kernel loopback timing; one shared world per worker thread; localhost resolves to 127.0.0.1")
+
 NOT_YET = {}
 
 def main():
